@@ -14,7 +14,7 @@ def describe(tier):
         "positions; ordered selections for <=2 entries, both orders of every 3-subset), every common value from the same alphabet, every "
         "assignment of row-id arrays from %r (3 entries: %r): saved with IndxIO.save and re-read with IndxIO.load. Non-trivial: at least one "
         "entry and the needed index word size differs between the coordinates and the common value, or an empty row-id array is present, "
-        "or arity >= 3. Plus files whose entries have very different lengths: every ordered pair of lengths from %r and triples short/long/short, long/empty/short, short/long/long. "
+        "or arity >= 3. Every seventh case is also saved in another legal representation (NumPy int64 / uint64 / narrowest-unsigned scalars for the common value and the coordinates; read-only, strided and reversed-view row-id arrays). Plus files whose entries have very different lengths: every ordered pair of lengths from %r and triples short/long/short, long/empty/short, short/long/long. "
         "Distinct = distinct (keys, arrays, common)." % (maxn, indx.ALPHA, indx.ROWIDS5, indx.ROWIDS3, indx.MIXED_LENGTHS),
         "bounds": {"arity": [1, 4], "entries": [0, maxn], "alphabet": [str(a) for a in indx.ALPHA]},
         "exhaustive": True,
@@ -71,6 +71,59 @@ def check_case(keys, arrays, common, acc, case=None):
             acc.violation("roundtrip:loaded-invalid", case, "the rebuilt index is well-formed but validate(True) raised %r" % (e,))
 
 
+REPR = ["np-int64", "np-uint64", "np-narrow", "read-only", "strided", "reversed-view"]
+
+
+def check_repr(keys, arrays, common, kind, acc):
+    """The same entries handed to IndxIO.save in another legal representation: NumPy integer scalars for the common value and the coordinates,
+    read-only / non-contiguous row-id arrays. The loaded result must be the plain-Python content."""
+    from catii.indxio import IndxIO
+    import os
+
+    case = {"keys": keys, "arrays": arrays, "common": common, "repr": kind}
+    mx = max([common] + [c for k in keys for c in k])
+    if kind == "np-int64":
+        if mx >= 2 ** 63:
+            return False
+        conv = numpy.int64
+    elif kind == "np-uint64":
+        conv = numpy.uint64
+    elif kind == "np-narrow":
+        conv = next(t for t in (numpy.uint8, numpy.uint16, numpy.uint32, numpy.uint64) if mx <= numpy.iinfo(t).max)
+    else:
+        conv = int
+    entries = {}
+    for k, a in zip(keys, arrays):
+        arr = numpy.array(a, dtype=numpy.uint32)
+        if kind == "read-only":
+            arr.flags.writeable = False
+        elif kind == "strided":
+            big = numpy.zeros(2 * len(a) + 1, dtype=numpy.uint32)
+            big[::2][:len(a)] = a
+            arr = big[::2][:len(a)]
+        elif kind == "reversed-view":
+            arr = numpy.array(a[::-1], dtype=numpy.uint32)[::-1]
+        entries[tuple(conv(c) for c in k)] = arr
+    path = os.path.join(indx.scratch_dir(), "r-%d.indx" % os.getpid())
+    try:
+        with open(path, "wb") as f:
+            IndxIO.save(f, entries, conv(common), numpy.dtype(numpy.uint32))
+        with open(path, "rb") as f:
+            blob = f.read()
+    except Exception as e:  # noqa
+        acc.violation("save:raised", case, repr(e))
+        return True
+    try:
+        out, common_l, dt, kinds, raw = indx.lib_load_bytes(blob)
+    except Exception as e:  # noqa
+        acc.violation("load:raised", case, repr(e))
+        return True
+    msg = indx.check_loaded(out, common_l, kinds, keys, arrays, common)
+    if msg:
+        acc.violation("roundtrip:differs", case, msg)
+    return True
+
+
 def nontrivial(keys, arrays, common):
     if not keys:
         return False
@@ -85,8 +138,12 @@ def run_block(family, p, acc):
         check_case(indx.mixed_keys(lengths), indx.mixed_arrays(lengths), 3, acc, case={"mixed_lengths": lengths})
         acc.case(("mixed", tuple(lengths)), nontrivial=True, outcome=("mixed", len(lengths)), sample={"entry_lengths": lengths})
         return
-    for keys, arrays, common in indx.cases_of_block(p):
+    for ci, (keys, arrays, common) in enumerate(indx.cases_of_block(p)):
         check_case(keys, arrays, common, acc)
+        if ci % 7 == 0:
+            kind = REPR[(ci // 7) % len(REPR)]
+            if check_repr(keys, arrays, common, kind, acc):
+                acc.count("representation_cases")
         acc.case((tuple(keys), tuple(map(tuple, arrays)), common), nontrivial=nontrivial(keys, arrays, common),
                  outcome=(len(keys), indx.narrowest(max([common] + [c for k in keys for c in k]))),
                  sample=lambda: {"keys": keys, "arrays": arrays, "common": common})
@@ -96,7 +153,9 @@ def replay(case, site=None):
     from ..core import Acc
 
     acc = Acc(ID, [], stop_at_first=False)
-    if "mixed_lengths" in case:
+    if "repr" in case:
+        check_repr([tuple(k) for k in case["keys"]], case["arrays"], case["common"], case["repr"], acc)
+    elif "mixed_lengths" in case:
         lengths = case["mixed_lengths"]
         check_case(indx.mixed_keys(lengths), indx.mixed_arrays(lengths), 3, acc, case=case)
     else:
